@@ -190,7 +190,7 @@ def registry_route(chk, P, normal, ref_forms, extra_forms):
     reg = P.cls("atsim.potentials.config._potential_form_registry", "Potential_Form_Registry")
     rinst = InstV(reg)
     table = W.run_method(I, rinst, "_register_standard", [])
-    rsite = reg.lookup("_register_standard").site()
+    rsite = reg.site_of("_register_standard")
     if not isinstance(table, DictV):
         raise AnalysisError("_register_standard did not return a dict")
     keys = sorted(k.v for k, _ in table.items.values())
